@@ -165,6 +165,21 @@ def compiled_in_sync(rel_pyx, span):
     return ok, why
 
 
+def _ldexp_c(m, e):
+    """C ldexp: overflow gives +-inf instead of raising"""
+    try:
+        return _math.ldexp(m, int(e))
+    except OverflowError:
+        return _math.copysign(float('inf'), m)
+
+
+def _frexp_ref(v, ref):
+    """C frexp(v, &e): mantissa returned, exponent stored through the pointer (a Ref cell in the transliteration)"""
+    m, e = _math.frexp(v)
+    ref.v = e
+    return m
+
+
 def float_ns():
     """namespace for executing transliterated .pyx source with ordinary python float/complex"""
     def _pow(a, b):
@@ -175,4 +190,63 @@ def float_ns():
     return {'_L': lambda t: float(t.replace('_', '')), '_div': _div, '_pow': _pow, 'fabs': abs, 'isinf': _math.isinf, 'isnan': _math.isnan, 'INFINITY': float('inf'),
             'NAN': float('nan'), 'pi': _math.pi, 'M_PI': _math.pi, 'cf_build_dblcmplx': complex, 'tgamma': _math.gamma, 'cos': _math.cos, 'sin': _math.sin, 'sqrt': _math.sqrt,
             'exp': _math.exp, 'log': _math.log, 'atan2': _math.atan2, 'hypot': _math.hypot, 'pow': pow, 'copysign': _math.copysign, 'floor': _math.floor,
-            'cabs': abs, 'csqrt': _cmath.sqrt, 'cexp': _cmath.exp, 'fmax': max, 'fmin': min}
+            'cabs': abs, 'csqrt': _cmath.sqrt, 'cexp': _cmath.exp, 'fmax': max, 'fmin': min, 'signbit': lambda v: _math.copysign(1.0, v) < 0, 'isfinite': _math.isfinite,
+            'ceil': _math.ceil, 'cbrt': lambda v: _math.copysign(abs(v) ** (1.0 / 3.0), v), 'frexp': _frexp_ref, 'ldexp': _ldexp_c, 'log1p': _math.log1p, 'expm1': _math.expm1,
+            'tan': _math.tan, 'fmod': _math.fmod}
+
+
+def pyx_float_call(rel_pyx, qual, args, extra_ns=None):
+    """call `qual` of the CURRENT .pyx source, transliterated and executed with ordinary python floats (every function of the file is loaded so that internal calls resolve)"""
+    from . import loader
+    names = [n for n in loader.pyx_function_names(rel_pyx) if n.split('.')[-1] not in float_ns()]      # e.g. cf_build_dblcmplx stays the python `complex` constructor
+    ns = dict(loader.pyx_module_constants(rel_pyx, {'DBL_MAX': 1.7976931348623157e308, 'DBL_MIN': 2.2250738585072014e-308, 'DBL_MANT_DIG': 53, 'G': 6.6743e-11}, float_mode=True))
+    ns.update(extra_ns or {})
+    fns = {}
+    for n in names:
+        try:
+            f, full = loader.load_pyx(rel_pyx, [n], ns, float_mode=True)
+            fns.update(f)
+            ns.update({k: v for k, v in full.items() if callable(v) and k.split('__')[-1] == n.split('.')[-1]})
+            ns[n.split('.')[-1]] = f[n]
+        except Exception:
+            continue
+    # second pass so that earlier functions see later ones
+    for n in list(fns):
+        try:
+            f, full = loader.load_pyx(rel_pyx, [n], ns, float_mode=True)
+            fns[n] = f[n]
+            ns[n.split('.')[-1]] = f[n]
+        except Exception:
+            pass
+    return fns[qual](*args)
+
+
+def pyx_value(rel_pyx, qual, args, compiled, extra_ns=None):
+    """(value, note): the compiled function `compiled` = (module, func) when the module is in sync with the current .pyx (source lines embedded in the generated C), otherwise the
+    transliterated current source in float mode. This keeps the replay meaningful when a .pyx was edited and the extension could not be rebuilt (no Cython in the sandbox)."""
+    from . import loader
+    import os as _os
+    src = open(loader.repo_path(rel_pyx)).read()
+    from . import pyx2py
+    try:
+        span = pyx2py.translit_function(src, qual)[1]
+        ok, why = compiled_in_sync(rel_pyx, span)
+    except Exception as e:
+        ok, why = False, 'span of %s not found (%r)' % (qual, e)
+    if ok:
+        # every function of the file that `qual` may call must be in sync as well: compare the whole file
+        try:
+            for n in loader.pyx_function_names(rel_pyx):
+                sp = pyx2py.translit_function(src, n)[1]
+                o2, w2 = compiled_in_sync(rel_pyx, sp)
+                if not o2:
+                    ok, why = False, '%s: %s' % (n, w2)
+                    break
+        except Exception:
+            pass
+    if ok:
+        r = call1(compiled[0], compiled[1], *args)
+        if not r['ok']:
+            raise RuntimeError('compiled %s.%s%r raised %s' % (compiled[0], compiled[1], tuple(args), r.get('error')))
+        return r['value'], 'compiled module (in sync with the source)'
+    return pyx_float_call(rel_pyx, qual, args, extra_ns), 'compiled module STALE (%s): transliterated current source in float mode' % why
